@@ -106,6 +106,7 @@ struct Ledger {
     blocks: Vec<Block>,
     violations: Vec<(u32, String, String)>,
     switches_in_crate: u64,
+    preemptions_in_crate: u64,
     vt_calls_offthread: u64,
 }
 
@@ -129,11 +130,20 @@ fn sched_cb(p: Point) {
     if !IN_EXEC.with(|c| c.get()) {
         return;
     }
-    LEDGER.with(|l| l.borrow_mut().switches_in_crate += 1);
+    let before = shuttle::current::context_switches();
     match p {
         Point::Spin => shuttle::thread::yield_now(),
         _ => shuttle_engine::runtime::thread::continuation::switch(),
     }
+    // did the scheduler really run another thread while this one was inside the crate?
+    let preempted = shuttle::current::context_switches() > before + 0 && shuttle::current::context_switches() - before > 1;
+    LEDGER.with(|l| {
+        let mut l = l.borrow_mut();
+        l.switches_in_crate += 1;
+        if preempted {
+            l.preemptions_in_crate += 1;
+        }
+    });
 }
 
 fn probe_cb(p: Probe) {
@@ -493,6 +503,7 @@ fn waker_thread(tid: usize, script: Vec<WOp>, sh: Arc<Shared>, is_merge: bool, d
 #[derive(Default, Clone, Debug)]
 struct ExecStats {
     switches_in_crate: u64,
+    preemptions: u64,
     vt_offthread: u64,
     polls: u64,
     yielded: u64,
@@ -785,6 +796,7 @@ fn execution(sc: &Scenario) {
                 .push((3, "C03/block-leaked".into(), format!("{} blocks never released", leaked.len())));
         }
         stats.switches_in_crate = l.switches_in_crate;
+        stats.preemptions = l.preemptions_in_crate;
         stats.vt_offthread = l.vt_calls_offthread;
     });
     for i in 0..next_push.min(total) {
@@ -910,6 +922,7 @@ struct Agg {
     nontrivial: HashSet<u64>,
     subjects: BTreeMap<String, u64>,
     switches: u64,
+    preemptions: u64,
     vt_offthread: u64,
     polls: u64,
     inconclusive: u64,
@@ -976,10 +989,11 @@ fn run_engine(prop: u32, seed: u64, scenarios: u64, schedules: u64, threads: usi
                             }
                             // non-trivial: a waker vtable call ran on a non-polling thread AND the scheduler
                             // switched threads inside crate code at least once
-                            if st.vt_offthread > 0 && st.switches_in_crate > 0 {
+                            agg.preemptions += st.preemptions;
+                            if st.vt_offthread > 0 && st.preemptions > 0 {
                                 let d = digest(&sc, ss);
                                 if agg.nontrivial.insert(d) && agg.samples.len() < 2 {
-                                    agg.samples.push(json!({"scenario": sc, "schedule_seed": ss, "scheduling_points_inside_crate": st.switches_in_crate,
+                                    agg.samples.push(json!({"scenario": sc, "schedule_seed": ss, "scheduling_points_inside_crate": st.switches_in_crate, "preemptions_inside_crate": st.preemptions,
                                         "waker_vtable_calls_on_other_threads": st.vt_offthread, "polls": st.polls, "items_yielded": st.yielded, "task_waker_invocations": st.task_wakes}));
                                 }
                             }
@@ -999,6 +1013,7 @@ fn run_engine(prop: u32, seed: u64, scenarios: u64, schedules: u64, threads: usi
                         *g.0.subjects.entry(k).or_insert(0) += v;
                     }
                     g.0.switches += a.switches;
+                    g.0.preemptions += a.preemptions;
                     g.0.vt_offthread += a.vt_offthread;
                     g.0.polls += a.polls;
                     g.0.inconclusive += a.inconclusive;
@@ -1082,12 +1097,13 @@ fn main() {
                 vios.push(json!({"signature": f.sig, "message": f.msg, "replay": path, "found_for": format!("C{:02}", f.prop)}));
             }
             println!(
-                "{pid} E2 {tier} seed={seed}: {} scenarios x {} schedules = {} executions, {} distinct non-trivial, {} scheduling points inside the crate, {} off-thread vtable calls, {} inconclusive, {:.1}s",
+                "{pid} E2 {tier} seed={seed}: {} scenarios x {} schedules = {} executions, {} distinct non-trivial, {} scheduling points / {} pre-emptions inside the crate, {} off-thread vtable calls, {} inconclusive, {:.1}s",
                 agg.scenarios,
                 sched,
                 agg.executions,
                 agg.nontrivial.len(),
                 agg.switches,
+                agg.preemptions,
                 agg.vt_offthread,
                 agg.inconclusive,
                 wall
@@ -1096,7 +1112,8 @@ fn main() {
                 "engine": "E2-schedules", "property": pid, "tier": tier, "seed": seed,
                 "scenarios": agg.scenarios, "schedules_per_scenario": sched, "executions": agg.executions,
                 "distinct_nontrivial": agg.nontrivial.len(),
-                "rule": "execution = generated scenario (subject, children, poller script, 1-3 waker-thread scripts, early drop) x one seeded shuttle schedule (random or PCT); non-trivial = a waker vtable call ran on a non-polling thread and the scheduler switched threads inside crate code; distinct = distinct (scenario, schedule seed)",
+                "rule": "execution = generated scenario (subject, children, poller script, 1-3 waker-thread scripts, early drop) x one seeded shuttle schedule (random or PCT); non-trivial = a waker vtable call ran on a non-polling thread AND the scheduler really pre-empted a thread at a scheduling point inside waker_list.rs (another thread ran before it continued); distinct = distinct (scenario, schedule seed)",
+                "preemptions_inside_crate": agg.preemptions,
                 "scheduling_points_inside_crate": agg.switches, "waker_vtable_calls_off_thread": agg.vt_offthread,
                 "polls": agg.polls, "inconclusive_executions": agg.inconclusive, "subjects": agg.subjects,
                 "samples": agg.samples, "violations": vios, "wall_s": wall,
